@@ -674,7 +674,52 @@ pub fn run_c11(tier: Tier) -> i32 {
     rep.add("states", st3.states as i64);
     rep.add("transitions", (st3.transitions + st3.probes) as i64);
     rep.add("traces_validated_against_impl", (st3.transitions + st3.probes) as i64);
-    rep.set("rule", "all sequences of write/overwrite/remove over the colliding name set x contents on both sides of the small-stream cutoff, interleaved with table operations and reopen, up to the completed depth; after every transition listing + contents are compared with the model (names as given; names differing by case only may share an entry); every state: has_stream/read_stream of every name in the set, raw container entry list vs listing, save + reopen; second exploration from a seed carrying both signature streams (remove_digital_signature must change nothing else; signature streams unreachable through the stream interface)");
+    // third exploration: streams named after tables and their rows (the
+    // convention of the Binary and Icon tables), on a package whose tables
+    // have columns of the Binary category: table operations must not touch them
+    let bin_table = |name: &str, two_keys: bool| {
+        let mut cols = vec![ColSpec::new("Name", Ty::Str(72)).key().category("Identifier")];
+        if two_keys {
+            cols.push(ColSpec::new("Index", Ty::I16).key());
+        }
+        cols.push(ColSpec::new("Data", Ty::Str(0)).nullable().category("Binary"));
+        Op::CreateTable { name: name.into(), cols }
+    };
+    let row_names: Vec<String> = vec!["Binary.Logo".into(), "Binary.Other".into(), "Binary".into(), "Pair.Left.7".into(), "Logo".into()];
+    let mut alphabet4: Vec<Op> = Vec::new();
+    for (k, n) in row_names.iter().enumerate() {
+        alphabet4.push(Op::WriteStream { name: n.clone(), len: 5, seed: 20 + k as u8 });
+    }
+    alphabet4.push(Op::RemoveStream { name: "Binary.Logo".into() });
+    alphabet4.push(Op::DropTable { name: "Binary".into() });
+    alphabet4.push(Op::DropTable { name: "Pair".into() });
+    alphabet4.push(Op::Delete { table: "Binary".into(), cond: None });
+    alphabet4.push(Op::Update { table: "Binary".into(), sets: vec![("Data".into(), s("Other"))], cond: None });
+    alphabet4.push(ins("Binary", vec![vec![s("Other"), s("Other")]]));
+    alphabet4.push(bin_table("Binary", false));
+    alphabet4.push(Op::Reopen);
+    let cfg4 = Config {
+        property: "C11",
+        seed: None,
+        ptype: 0,
+        setup: vec![bin_table("Binary", false), bin_table("Pair", true), ins("Binary", vec![vec![s("Logo"), s("Logo")]]), ins("Pair", vec![vec![s("Left"), i(7), Val::Null]])],
+        alphabet: alphabet4,
+        probes: vec![],
+        stream_names: row_names,
+        max_depth: if tier.thorough() { 4 } else { 3 },
+        wall_cap: Duration::from_secs(120),
+        monitors: Monitors { model: true, roundtrip: true, stream_listing: true, stream_class_compare: true, ..Monitors::default() },
+        merge_audits: 0,
+        nodedup_depth: 0,
+    };
+    let st4 = explore(&cfg4, &mut rep);
+    rep.set("row_streams_states", st4.states);
+    rep.set("row_streams_transitions", st4.transitions);
+    rep.set("row_streams_depth", st4.max_depth_completed);
+    rep.add("states", st4.states as i64);
+    rep.add("transitions", (st4.transitions + st4.probes) as i64);
+    rep.add("traces_validated_against_impl", (st4.transitions + st4.probes) as i64);
+    rep.set("rule", "third exploration: streams named <Table>.<key> next to tables with Binary-category columns and rows of those keys, under drop/delete/update/insert/create/reopen; all sequences of write/overwrite/remove over the colliding name set x contents on both sides of the small-stream cutoff, interleaved with table operations and reopen, up to the completed depth; after every transition listing + contents are compared with the model (names as given; names differing by case only may share an entry); every state: has_stream/read_stream of every name in the set, raw container entry list vs listing, save + reopen; second exploration from a seed carrying both signature streams (remove_digital_signature must change nothing else; signature streams unreachable through the stream interface)");
     rep.finish()
 }
 
